@@ -29,17 +29,19 @@ var (
 var scopes = []*scope{
 	// ---- quick ----
 	{Name: "1-2rules/full/zones", Tiers: "quick", Roles: allRoles, Counts: []int{1, 2, 3}, Cons: []int{0, 1, 2, 3, 4, 5, 6, 7}, Locs: []int{0, 1, 2},
-		MinRules: 1, MaxRules: 2, Layouts: []int{0}, MinPeers: 3, MaxPeers: 4},
+		MinRules: 1, MaxRules: 2, Layouts: []int{0}, MinPeers: 2, MaxPeers: 4},
 	{Name: "1-2rules/mid/sparse", Tiers: "quick", Roles: allRoles, Counts: []int{1, 2, 3}, Cons: []int{0, 1, 3, 4, 5, 6}, Locs: []int{0, 2},
 		MinRules: 1, MaxRules: 2, Layouts: []int{1}, MinPeers: 1, MaxPeers: 5, Leaderless: true},
 	{Name: "3rules/small/four", Tiers: "quick", Roles: allRoles, Counts: []int{1, 2}, Cons: []int{0, 1, 4, 6}, Locs: []int{0, 2},
 		MinRules: 3, MaxRules: 3, Layouts: []int{4}, MinPeers: 3, MaxPeers: 4},
+	{Name: "4rules/tiny/four-plain", Tiers: "quick", Roles: allRoles, Counts: []int{1, 2}, Cons: []int{0, 1}, Locs: []int{2},
+		MinRules: 4, MaxRules: 4, Layouts: []int{5}, MinPeers: 4, MaxPeers: 4},
 	// ---- thorough ----
-	{Name: "1-2rules/wide/all-layouts", Tiers: "thorough", Roles: allRoles, Counts: []int{1, 2, 3}, Cons: []int{0, 1, 2, 3, 4, 5, 6, 7, 8, 9, 10, 11}, Locs: []int{0, 1, 2, 3},
+	{Name: "1-2rules/wide/3layouts", Tiers: "thorough", Roles: allRoles, Counts: []int{1, 2, 3}, Cons: []int{0, 1, 2, 3, 4, 5, 6, 7, 8, 9, 10, 11, 12}, Locs: []int{0, 1, 2, 3},
 		MinRules: 1, MaxRules: 2, Layouts: []int{0, 1, 3}, MinPeers: 1, MaxPeers: 5, Leaderless: true},
-	{Name: "3rules/mid/zones", Tiers: "thorough", Roles: allRoles, Counts: []int{1, 2, 3}, Cons: []int{0, 1, 3, 4, 6}, Locs: []int{0, 2},
+	{Name: "3rules/mid/zones", Tiers: "thorough", Roles: allRoles, Counts: []int{1, 2, 3}, Cons: []int{0, 1, 4, 6}, Locs: []int{0, 2},
 		MinRules: 3, MaxRules: 3, Layouts: []int{0}, MinPeers: 3, MaxPeers: 5},
-	{Name: "4rules/small/six", Tiers: "thorough", Roles: allRoles, Counts: []int{1, 2}, Cons: []int{0, 1, 6}, Locs: []int{0, 2},
+	{Name: "4rules/small/six", Tiers: "thorough", Roles: allRoles, Counts: []int{1, 2}, Cons: []int{0, 1}, Locs: []int{2},
 		MinRules: 4, MaxRules: 4, Layouts: []int{2}, MinPeers: 5, MaxPeers: 6},
 }
 
@@ -198,7 +200,7 @@ func main() {
 	}
 	rep := evidence.NewReporter(property)
 	cov := evidence.Coverage{Exhaustive: true}
-	cov.Rule = "every rule list of the scope's alphabet (role x count x constraint list x location labels; location labels only for count>=2) x every store layout of the scope x every region (every subset of the layout's stores of the allowed sizes x every voter/learner pattern x every leader among the voters) is one distinct case, generated by nested counting (no sampling); a case is non-trivial when a real choice exists: some peer is eligible for two or more rules or some rule has more eligible peers than its count. For every case the real FitRegion result is validated and compared with ALL valid assignments (brute force)"
+	cov.Rule = "every rule list of the scope's alphabet (role x count x constraint list x location labels; a rule of count 1 has no location labels) x every store layout of the scope x every region (every subset of the layout's stores of the allowed sizes x every voter/learner pattern x every leader among the voters) is one distinct case, generated by nested counting (no sampling); a case is non-trivial when a real choice exists: some peer is eligible for two or more rules or some rule has more eligible peers than its count. For every case the real FitRegion result is validated and compared with ALL valid assignments (brute force)"
 	deadline := time.Now().Add(time.Duration(*budget) * time.Second)
 
 	var run []*scope
